@@ -118,7 +118,8 @@ func instrument(path string, fc FileCfg) ([]byte, error) {
 		}
 	}
 
-	// seams first (they replace whole bodies)
+	// seams first
+	var extraDecls []*ast.FuncDecl
 	for _, d := range f.Decls {
 		fd, ok := d.(*ast.FuncDecl)
 		if !ok || fd.Body == nil {
@@ -129,9 +130,12 @@ func instrument(path string, fc FileCfg) ([]byte, error) {
 			name = recvTypeName(fd.Recv.List[0].Type) + "." + name
 		}
 		if seam, ok := fc.Seams[name]; ok {
-			rw.applySeam(fd, seam)
+			extraDecls = append(extraDecls, rw.applySeam(fd, seam))
 			delete(fc.Seams, name)
 		}
+	}
+	for _, d := range extraDecls {
+		f.Decls = append(f.Decls, d)
 	}
 	for k := range fc.Seams {
 		return nil, fmt.Errorf("seam function %s not found (was it renamed?)", k)
@@ -209,16 +213,27 @@ func (rw *rewriter) vrt(name string) ast.Expr {
 	return &ast.SelectorExpr{X: ast.NewIdent("zzvrt"), Sel: ast.NewIdent(name)}
 }
 
-func (rw *rewriter) applySeam(fd *ast.FuncDecl, seam string) {
+// applySeam turns  func (r T) F(args) results { body }  into
+//
+//	func (r T) zzOrigF(args) results { body }
+//	func (r T) F(args) results { if seam != nil { return seam(r, args...) }; return r.zzOrigF(args...) }
+//
+// where seam is a package-level function variable declared by the harness in an
+// overlay-added file. With the variable nil the original behaviour is untouched.
+func (rw *rewriter) applySeam(fd *ast.FuncDecl, seam string) *ast.FuncDecl {
 	var args []ast.Expr
+	var recvName string
 	if fd.Recv != nil {
 		f := fd.Recv.List[0]
 		if len(f.Names) == 0 || f.Names[0].Name == "_" {
 			f.Names = []*ast.Ident{ast.NewIdent("zzrecv")}
 		}
-		args = append(args, ast.NewIdent(f.Names[0].Name))
+		recvName = f.Names[0].Name
+		args = append(args, ast.NewIdent(recvName))
 	}
 	n := 0
+	var plain []ast.Expr
+	variadic := false
 	for _, p := range fd.Type.Params.List {
 		if len(p.Names) == 0 {
 			n++
@@ -229,21 +244,40 @@ func (rw *rewriter) applySeam(fd *ast.FuncDecl, seam string) {
 				n++
 				p.Names[i] = ast.NewIdent(fmt.Sprintf("zzp%d", n))
 			}
-			var a ast.Expr = ast.NewIdent(p.Names[i].Name)
 			if _, ok := p.Type.(*ast.Ellipsis); ok {
-				a = ast.NewIdent(p.Names[i].Name) // passed as slice
+				variadic = true
 			}
-			args = append(args, a)
+			args = append(args, ast.NewIdent(p.Names[i].Name))
+			plain = append(plain, ast.NewIdent(p.Names[i].Name))
 		}
 	}
-	call := &ast.CallExpr{Fun: ast.NewIdent(seam), Args: args}
-	var st ast.Stmt
-	if fd.Type.Results != nil && len(fd.Type.Results.List) > 0 {
-		st = &ast.ReturnStmt{Results: []ast.Expr{call}}
-	} else {
-		st = &ast.ExprStmt{X: call}
+	origName := "zzOrig" + fd.Name.Name
+	wrapper := &ast.FuncDecl{Recv: fd.Recv, Name: ast.NewIdent(fd.Name.Name), Type: fd.Type}
+	fd.Name = ast.NewIdent(origName)
+	seamCall := &ast.CallExpr{Fun: ast.NewIdent(seam), Args: args}
+	var origFun ast.Expr = ast.NewIdent(origName)
+	if recvName != "" {
+		origFun = &ast.SelectorExpr{X: ast.NewIdent(recvName), Sel: ast.NewIdent(origName)}
 	}
-	fd.Body = &ast.BlockStmt{List: []ast.Stmt{st}}
+	origCall := &ast.CallExpr{Fun: origFun, Args: plain}
+	if variadic {
+		origCall.Ellipsis = 1
+	}
+	hasRes := fd.Type.Results != nil && len(fd.Type.Results.List) > 0
+	var thenStmts []ast.Stmt
+	var tail ast.Stmt
+	if hasRes {
+		thenStmts = []ast.Stmt{&ast.ReturnStmt{Results: []ast.Expr{seamCall}}}
+		tail = &ast.ReturnStmt{Results: []ast.Expr{origCall}}
+	} else {
+		thenStmts = []ast.Stmt{&ast.ExprStmt{X: seamCall}, &ast.ReturnStmt{}}
+		tail = &ast.ExprStmt{X: origCall}
+	}
+	wrapper.Body = &ast.BlockStmt{List: []ast.Stmt{
+		&ast.IfStmt{Cond: &ast.BinaryExpr{X: ast.NewIdent(seam), Op: token.NEQ, Y: ast.NewIdent("nil")}, Body: &ast.BlockStmt{List: thenStmts}},
+		tail,
+	}}
+	return wrapper
 }
 
 func exprText(fset *token.FileSet, e ast.Expr) string {
